@@ -612,9 +612,13 @@ def r8_dependent_product_average(repo: Repo, rep):
 
 
 def run(repo: Repo, rep):
+    from .c18 import r16_layout_of_every_reader  # Boolean combinations remove the doubly covered part before a density is turned into rows: a box pre-filter in front of the membership test must read the interleaved layout
+    r16_layout_of_every_reader(repo, rep)
     from .c02 import r11_topped_up_count  # with a density the number of rows IS the statement about the measure: ceil(d * volume) rows, not whatever the last top-up round left
     r11_topped_up_count(repo, rep)
     r8_dependent_product_average(repo, rep)
+    from .c01 import r1_facts  # density sampling of a Boolean combination delivers about d * measure rows only if candidates drawn in one operand are tested against the OTHER: rows outside the combination inflate the count
+    r1_facts(repo, rep)
     from .generic import g_arg_constructor_parameters
     g_arg_constructor_parameters(repo, rep, lambda m: ".domains." in m, floor=25,
                                  why="a domain that ignores a shape argument or a flag (disjoint, contained) reports another measure")
